@@ -927,7 +927,7 @@ func (x *Exec) frameCheck(s *State, env *SpecEnv) {
 			}
 			// only locations allocated at entry matter to the caller
 			if srt.Args[0] == smt.Ref {
-				excl = append(excl, smt.Select(x.entryAlloc(), k))
+				excl = append(excl, smt.Select(x.entryAlloc(), RootOf(k)))
 			}
 			goal = smt.Implies(smt.And(excl...), smt.Eq(smt.Select(cur, k), smt.Select(ent, k)))
 		} else {
@@ -965,6 +965,7 @@ func (x *Exec) allocNew(s *State, hint string) *smt.Term {
 	r := smt.Fresh("new$"+hint, smt.Ref)
 	s.assume(smt.Neq(r, RefNil))
 	s.assume(smt.Not(smt.Select(cur, r)))
+	s.assume(smt.Eq(RootOf(r), r))
 	s.heap["$alloc"] = smt.Store(cur, r, smt.True)
 	return r
 }
